@@ -118,6 +118,19 @@ def run(ck, rng, tier):
                 if (s[1:] / s[:-1]).max() <= 0.85 and s[-1] > 0.05 * s[0] and ((X - X.mean(axis=0)) == 0.0).sum() >= 3:
                     break
             ck.count("designed integer data with cells equal to their column mean")
+        elif c == 12:
+            # autoscaling (and the other scalings) of columns of which ONE has a scale within 1e-3 of 1 but not 1 (standard
+            # deviation 1.0008): it is divided by its scale like every other column
+            scaling, mag, nproc = rng.choice((1, 1, 2)), 1.0, 1
+            X, s = gen_separated(rng, n, m, 1.0)
+            j_ = rng.randrange(m)
+            cj = X[:, j_] - X[:, j_].mean()
+            stat = cj.std(ddof=1) if scaling == 1 else math.sqrt(((cj + 3.0) ** 2).mean())
+            X[:, j_] = (cj * (1.0008 / cj.std(ddof=1)) if scaling == 1 else (cj + 3.0) * (1.0008 / stat))
+            for k_ in range(m):
+                if k_ != j_:
+                    X[:, k_] = (X[:, k_] - X[:, k_].mean()) * rng.choice((3.0, 0.2, 7.5)) + rng.uniform(-2, 2)
+            ck.count("one column scale within 1e-3 of 1")
         npc = rng.randint(1, min(3, len(s))) if c not in (10, 11) else (7 if c == 10 else 3)
         # the property presumes rank >= number of components AFTER preprocessing (a column whose scale
         # falls inside the zero guard is dropped by the preprocessing; centring costs one rank)
